@@ -220,6 +220,28 @@ func c20Parent(c *core.Ctx, r *core.Reporter) {
 			r.Bad(key, sites[0].Pos(), "%s passes %s with provenance %v to %s, expected only %v", sp.caller, sp.what, core.Classes(args[sp.arg]), sp.callee, sp.allowed)
 		}
 	}
+	// every path extension starts from the path of the frame that makes it: the function's own path parameter (inside a
+	// nested list the running path already ends in the outer index; Info.Path is the field's path and lacks it)
+	if wkFn := c.Func("", "ResponsePath.WithKey"); wkFn != nil {
+		perHost := map[string]int{}
+		for _, fn := range c.LibFuncs() {
+			for _, site := range core.CallsTo(fn, wkFn, false) {
+				host := core.FuncKey(fn)
+				perHost[host]++
+				key := host + "/path-extends-frame-path"
+				if perHost[host] > 1 {
+					key += fmt.Sprintf("#%d", perHost[host])
+				}
+				recv := site.Common().Args[0]
+				ok, _ := core.OnlyClasses(recv, "param:ResponsePath")
+				if ok {
+					r.OK(key, site.Pos(), "the extended path is the frame's own path parameter")
+				} else {
+					r.Bad(key, site.Pos(), "%s extends a path with provenance %v instead of its own path parameter: below a nested list (or any frame whose running path differs from the field's path) resolvers and errors are told a path that lacks the enclosing indices", host, core.Classes(recv))
+				}
+			}
+		}
+	}
 	// abstract: the type planned and the type executed under are the same value
 	if fn := c.Func("", "completePlannedAbstractValue"); fn != nil {
 		a := core.CallsTo(fn, c.Func("", "Plan.abstractAlternative"), false)
